@@ -70,7 +70,8 @@ func (s *CH) Init(wk *ksim.Worker) *ksim.World {
 	w := wk.Root()
 	w.Ext = &chExt{}
 	l := w.SetupClients(0, 1)
-	if s.DupTry {
+	{
+		// asymmetric identifiers in every part: an untracked dangling INIT takes connection-0 on chain 1
 		ksim.MustOK("dangling conn init", w.Tx(1, connectiontypes.NewMsgConnectionOpenInit(l.ClientB, l.ClientA, ksim.Prefix, chVersions[0], 0, ksim.Signer)))
 	}
 	w.Sync(1, l.ClientB, 0)
